@@ -10,7 +10,7 @@ static void vh_fmt(const char *f, va_list ap)
   void **q = (void **)ap;   /* CBMC models va_list as an array of pointers to the arguments */
   for (int i = 0; f[i] != 0; i++)
   {
-    g_text_hash = g_text_hash * 31u + (unsigned char)f[i];
+    g_text_hash = ((g_text_hash << 5) | (g_text_hash >> 27)) ^ (unsigned char)f[i];
     if (f[i] != '%') continue;
     i++;
     while (f[i] == '-' || f[i] == '0' || f[i] == ' ' || f[i] == '+' || (f[i] >= '0' && f[i] <= '9')) i++;
@@ -26,7 +26,7 @@ static void vh_fmt(const char *f, va_list ap)
         void *p = *q++;
         size_t sz = __CPROVER_OBJECT_SIZE(p);
         unsigned v = sz == 1 ? *(unsigned char *)p : sz == 2 ? *(unsigned short *)p : sz == 4 ? *(unsigned *)p : (unsigned)*(unsigned long *)p;
-        g_text_hash = g_text_hash * 31u + v;
+        g_text_hash = ((g_text_hash << 5) | (g_text_hash >> 27)) ^ v;
         break;
       }
       default: __CPROVER_assert(0, "snprintf stub: unknown conversion"); break;
